@@ -157,6 +157,10 @@ def mon_C06(md_lib, cfg, ops, impl, stats, r=None):
         op = ops[k] if k < len(ops) else None
         res = result_of(block)
         nts = [parse(l) for l in block if l.startswith("NT ")]
+        if op and op[0] == "process":
+            # only the reports for the occurrence this call submitted: an older deferred or queued occurrence that is
+            # re-offered during the call is reported for itself (C05), on the machine that stored it
+            nts = [n for n in nts if (n["ety"], n["pay"]) == (op[1], op[2])]
         if op and op[0] == "process" and not op[4] and "ESC" not in block:
             stats.dist[("result", res)] += 1
             stats.nontrivial.add(("C06", k, res, len(nts)))
@@ -176,6 +180,7 @@ def mon_C06(md_lib, cfg, ops, impl, stats, r=None):
 # ---- C03 ---------------------------------------------------------------------------------------------
 def mon_C03(md_lib, cfg, ops, impl, stats, r=None):
     out = []
+    res_ = r
     ledger = collections.Counter()
     started = False
     for k, block in enumerate(impl):
@@ -223,6 +228,27 @@ def mon_C03(md_lib, cfg, ops, impl, stats, r=None):
                 if s >= len(m["states"]) or m["states"][s]["zone"] != r:
                     out.append("op %d: %s region %d active id %d is not a state of that region" % (k, path, r, s))
                 active.add((path, s))
+        # the other introspection calls agree with the reported ids (comment lines printed by the harness under
+        # -DH_INTROSPECT): backmp11 is_state_active<S>() and the active-state visitor, back / back11 get_state_by_id
+        raw = res_["impl_raw"][k] if res_ and "impl_raw" in res_ and k < len(res_["impl_raw"]) else []
+        for l in raw:
+            if l.startswith("#ACT "):
+                _, path, rest = l.split(" ", 2)
+                got = sorted(int(x) for x in rest.strip("[] ").split())
+                stats.dist[("is_state_active answers checked",)] += 1
+                if path in snaps and got != sorted(snaps[path]):
+                    out.append("op %d: is_state_active<> names %s at %s, get_active_state_ids reports %s" % (k, got, path, snaps[path]))
+            elif l.startswith("#VIS"):
+                got = sorted(l.split()[1:])
+                exp = sorted("%s:%d" % (pth, s) for pth, ids in snaps.items() for s in ids)
+                stats.dist[("visitor sweeps checked",)] += 1
+                if got != exp:
+                    out.append("op %d: the active-state visitor visits %s, the reported configuration is %s" % (k, got, exp))
+            elif l.startswith("#GSI "):
+                t = l.split()
+                stats.dist[("get_state_by_id answers checked",)] += 1
+                if any(x != "1" for x in t[2:]):
+                    out.append("op %d: get_state_by_id does not return the state object for some id of %s: %s" % (k, t[1], t[2:]))
         entered = {key for key, v in ledger.items() if v == 1 and key != ("", "root")}
         stats.nontrivial.add(("C03", frozenset(active)))
         if entered != active:
